@@ -727,6 +727,13 @@ def elem_of(shape, uid, start=0):
         return ("mapped", shape[1], shape[2], inner), n
     if k == "repeat_with":
         return ("repeat_elem", shape[1], shape[2]), start
+    if k == "adapter" and shape[1] == "filter" and is_stream(shape[2]) and len(shape[3]) == 1:
+        # rejection sampling: every yielded element is a fresh draw for which the predicate holds
+        inner, n = elem_of(shape[2], uid, start)
+        return ("filtered_elem", inner, shape[3][0]), n
+    if k == "adapter" and shape[1] == "skip_while" and is_stream(shape[2]):
+        # only the first yielded element is constrained; as a vector source no element is guaranteed anything
+        return elem_of(shape[2], uid, start)
     if k == "adapter":
         return ("adapted", shape[1], uid, start), start + 1
     if k == "refs":
@@ -740,8 +747,22 @@ def elem_of(shape, uid, start=0):
     return ("elem", uid, start), start + 1
 
 
+def is_stream(shape):
+    """An unbounded stream of independent draws: repeat_with(f), possibly filtered / mapped."""
+    k = shape[0]
+    if k == "repeat_with":
+        return True
+    if k == "adapter" and shape[1] in ("filter", "skip_while"):
+        return is_stream(shape[2])
+    if k == "map":
+        return is_stream(shape[3])
+    return False
+
+
 def leaves_of(shape):
     k = shape[0]
+    if k == "adapter" and shape[1] in ("filter", "skip_while") and is_stream(shape[2]):
+        return leaves_of(shape[2])
     if k == "zip":
         return leaves_of(shape[1]) + leaves_of(shape[2])
     if k in ("enumerate",):
@@ -778,6 +799,8 @@ def shape_len(eng, shape):
             return min(inner, n)
         return None
     if k == "repeat_with":
+        return "inf"
+    if k == "adapter" and shape[1] in ("filter", "skip_while") and is_stream(shape[2]):
         return "inf"
     if k == "range":
         if shape[1][0] == "int" and shape[2][0] == "int":
@@ -817,6 +840,11 @@ def instantiate_elem(eng, ctx, e, uid_map=None):
         return call_closure(ctx, e[1], [inner])
     if k == "repeat_elem":
         return call_closure(ctx, e[1], [])
+    if k == "filtered_elem":
+        v = instantiate_elem(eng, ctx, e[1])
+        keep = call_closure(ctx, e[2], [("refv", v)])
+        eng.assumed.append(eng.tobdd(keep))
+        return v
     return e
 
 
@@ -884,6 +912,10 @@ def as_iter(ctx, a, i):
     """Coerce an argument that is itself an Iterator (e.g. a Range value) into an ('iter', shape)."""
     if a[0] == "iter":
         return a
+    if is_ref(a):
+        cur = ctx.eng.deref_value(ctx.st, a)
+        if cur is not None and cur[0] == "iter" and is_stream(cur[1]):
+            return cur          # streams carry no position: borrowing one yields the same unbounded stream
     if a[0] == "struct" and a[1].endswith("ops::Range") and len(a[3]) == 2:
         return ("iter", ("range", a[3][0], a[3][1]))
     t = ctx.arg_ty(i)
@@ -925,6 +957,11 @@ def m_take(ctx, args):
     n = args[1]
     nn = n[1] if n[0] == "int" else (n[1] if n[0] == "cparam" else n)
     return ("iter", ("take", a[1], nn)) if a[0] == "iter" else ("call", ctx.oq, (a, n))
+
+
+@model("std::iter::Iterator::by_ref")
+def m_by_ref(ctx, args):
+    return args[0]
 
 
 @model("std::iter::Iterator::map")
@@ -1093,6 +1130,18 @@ def m_next(ctx, args):
     eng = ctx.eng
     it = args[0]
     cur = eng.deref_value(ctx.st, it) if is_ref(it) else it
+    if cur[0] == "iter" and is_stream(cur[1]):
+        shape = cur[1]
+        e, _ = elem_of(shape, 0)
+        v = instantiate_elem(eng, ctx, e)
+        if shape[0] == "adapter" and shape[1] == "skip_while" and len(shape[3]) == 1:
+            # the first element ever yielded is the first draw failing the predicate; afterwards the adapter
+            # passes the underlying stream through unchanged
+            skip = call_closure(ctx, shape[3][0], [("refv", v)])
+            eng.assumed.append(eng.bdd.NOT(eng.tobdd(skip)))
+            if it[0] == "ref":
+                eng.write_ref(ctx.st, it, ("iter", shape[2]))
+        return some(v)
     if not eng.binders:
         return ("call", ctx.oq, (cur,))
     uid = eng.binders[-1]
